@@ -690,6 +690,8 @@ func c15TypeAsserts(c *Ctx) {
 				key := fmt.Sprintf("%s/%s:%s", rule, name, types.TypeString(ta.AssertedType, func(p *types.Package) string { return p.Name() }))
 				if ta.CommaOk {
 					c.R.OK(rule, key, c.P.Pos(ta.Pos()), "comma-ok form")
+				} else if fromSyncPool(ta.X) {
+					c.R.OK(rule, key, c.P.Pos(ta.Pos()), "value taken from a sync.Pool: its dynamic type is what the library itself put there, not peer input")
 				} else {
 					c.R.Fail(rule, key, c.P.Pos(ta.Pos()), "unchecked type assertion in a function reachable from peer input: a value of another dynamic type panics")
 				}
@@ -864,4 +866,14 @@ func canonSub(v ssa.Value, d int, out map[string]bool) {
 			canonSub(a, d+1, out)
 		}
 	}
+}
+
+// fromSyncPool reports whether v is the result of (*sync.Pool).Get.
+func fromSyncPool(v ssa.Value) bool {
+	call, ok := v.(*ssa.Call)
+	if !ok {
+		return false
+	}
+	callee := call.Call.StaticCallee()
+	return callee != nil && callee.String() == "(*sync.Pool).Get"
 }
